@@ -738,6 +738,8 @@ def observe(t, xin=None, yin=None):
         ob["isize"], ob["osize"] = int(A.input_size), int(A.output_size)
         ob["mshape"] = [int(v) for v in A.matrix_shape]
         ob["shape_attr_ok"] = (canon_shape(A.shape[0]) == ob["osh"] and canon_shape(A.shape[1]) == ob["ish"])
+        if ob["cls"] in ("Diagonal", "ScaledIdentity", "Identity"):
+            ob["dsh"] = canon_shape(A.diagonal.shape)   # shape of the .diagonal property (what Diagonal.__add__ compares)
     except Exception as e:
         ob["meta_error"] = f"{type(e).__name__}: {e}"
         return ob
@@ -957,7 +959,8 @@ FORMS_AND_LEAVES = {"L", "Diag", "SId", "Id", "Mat", "Sum", "Transpose", "Pad", 
 def operand_meta(ob):
     if ob["ctor"] is not None or "meta_error" in ob:
         return None
-    return {"ish": ob["ish"], "osh": ob["osh"], "idt": ob["idt"], "odt": ob["odt"], "cls": ob["cls"], "lin": ob["lin"]}
+    return {"ish": ob["ish"], "osh": ob["osh"], "idt": ob["idt"], "odt": ob["odt"], "cls": ob["cls"], "lin": ob["lin"],
+            "dsh": ob.get("dsh")}
 
 
 def expr_failures(t, ob, code, obs):
